@@ -1449,3 +1449,63 @@ class IsCircRna(Contract):
     def post_return(self, I, st, ret):
         from pyvc.core import as_bool
         I.e.prove('C13/metadata/circRNA-file-iff-written-by-parseCIRCexplorer', as_bool(ret) == st.is_circ_parser)
+
+
+class _ParseGvf(Contract):
+    """seqvar.io.parse(handle): every record iterate() reads from the handle - or from the file opened for reading when a path is given - is yielded
+    exactly once, in order, and nothing else (iterate is under its own contract)"""
+    path, qualname, props = SIO, 'parse', ('C13',)
+    by_path = False
+
+    def name(self):
+        return f'{self.path}:{self.qualname}[{"path" if self.by_path else "open handle"}]'
+
+    def setup(self, I):
+        st = types.SimpleNamespace(yielded=[], log=[])
+        st.n = I.e.int('n_records')
+        I.e.assume(st.n >= 0)
+        zz = lambda i: i if is_z3(i) else z3.IntVal(i)
+        st.records = FnView(st.n, lambda i: SymObj('Rec13p', i=zz(i)), tag='records iterate() yields')
+        st.stream = SymObj('Stream13p')
+        st.args = ['variants.gvf' if self.by_path else st.stream]
+        self._cur = st
+        return st
+
+    @property
+    def models(self):
+        c = self
+
+        def inst(reg):
+            reg.ext_('open', lambda I, a, k: (c._cur.log.append(('open', a[0], a[1] if len(a) > 1 else k.get('mode', 'r'))), c._cur.stream)[1])
+            reg.method_('Stream13p', '__enter__', lambda I, o, a, k: o)
+            reg.method_('Stream13p', '__exit__', lambda I, o, a, k: None)
+            reg.func_(SIO, 'iterate', lambda I, a, k: (c._cur.log.append(('iterate', a[0] if a else None, None)), c._cur.records)[1])
+            reg.global_(SIO, 'Path', ClassRef('Path', None))        # isinstance(handle, (str, Path)): an open handle is neither
+            reg.on_yield = lambda I, frame, v: c._cur.yielded.append(v)
+        return (inst,)
+
+    def head(self, I, env, k):
+        self._cur.mark = len(self._cur.yielded)
+
+    def step(self, I, env, k):
+        new = self._cur.yielded[self._cur.mark:]
+        ok = len(new) == 1 and isinstance(new[0], SymObj) and new[0].cls == 'Rec13p'
+        return [('record-k-yielded-once', new[0].fields['i'] == k if ok else False)]
+
+    @property
+    def loops(self):
+        spec = LoopSpec(inv=lambda I, env, k: [], on_head=self.head, step=self.step, target_after='unknown',
+                        on_break=lambda I, env, k: [('every-record-is-visited', False)],
+                        on_exit=lambda I, env, n: [('all-records-were-yielded', n == self._cur.n)])
+        return {0: spec, 1: spec}
+
+    def post_return(self, I, st, ret):
+        its = [x for x in st.log if x[0] == 'iterate']
+        opens = [x for x in st.log if x[0] == 'open']
+        ok = len(its) == 1 and its[0][1] is st.stream
+        ok = ok and (len(opens) == 1 and opens[0][1] == 'variants.gvf' and opens[0][2] in ('r', 'rt') if self.by_path else not opens)
+        I.e.prove('C13/parse/records-read-once-from-the-given-handle-or-the-given-path-opened-for-reading', z3.BoolVal(bool(ok)))
+
+
+register(type('ParseGvfHandle', (_ParseGvf,), dict(by_path=False, __doc__=_ParseGvf.__doc__)))
+register(type('ParseGvfPath', (_ParseGvf,), dict(by_path=True, __doc__=_ParseGvf.__doc__)))
